@@ -77,6 +77,11 @@ fn main() {
             let code = driver::finish(&ctx, level_of(id), rep);
             std::process::exit(code)
         }
+        "selftest" => {
+            let per = pos.first().and_then(|x| x.parse().ok()).unwrap_or(2usize);
+            let (d, n) = checks::selftest_digest(seed, threads, per);
+            println!("SELFTEST seed={seed} worlds={n} digest={d}");
+        }
         "vectors" => match spec_vectors::check_all(std::path::Path::new(&verif_dir)) {
             Ok(n) => println!("Model B reproduces all {n} RFC 9807 vectors"),
             Err(e) => {
